@@ -412,6 +412,9 @@ theorem lstep_renew_ok (hh : s.holder i = some prev) (hg : durationGuard ttl = s
   subst h2
   simp only [h0, h1, if_false, ne_eq, not_true_eq_false]
 
+/-- `RenewLockLease(key, dur)` is the ticker's `renewLeaseOnce`: the caller's duration plays no role -/
+theorem lstep_renewLock : lstep s (.renewLock i d ttl) = lstep s (.renew i ttl) := rfl
+
 theorem lstep_unlock_notHolder (hh : s.holder i = none) :
     lstep s (.unlock i) = (s, .notHolder) := by show doUnlock s i = _; unfold doUnlock; simp only [hh]
 
@@ -529,6 +532,7 @@ theorem inv_step (s : LockSt) (e : Ev) (h : Inv s) : Inv (lstep s e).1 := by
   | tick d => exact inv_tick s d h
   | lockTry i ttl => exact inv_lockTry s i ttl h
   | renew i ttl => exact inv_renew s i ttl h
+  | renewLock i dur ttl => rw [lstep_renewLock]; exact inv_renew s i ttl h
   | unlock i => exact inv_unlock s i h
 
 theorem inv_init : Inv {} := by
@@ -602,6 +606,166 @@ theorem stale_cannot_release (s : LockSt) (i tok : Nat) (hh : s.holder i = some 
     (lstep s (.unlock i)).2 = .expired ∧ (lstep s (.unlock i)).1.lease = s.lease := by
   rw [lstep_unlock_expired s i tok hh hne]; exact ⟨rfl, rfl⟩
 
+
+/-! ### a live holder keeps the lock: explicit `RenewLockLease`, ticker renewals, contenders -/
+
+/-- an explicit `RenewLockLease(key, dur)` at any moment up to the expiry — whatever `dur` the caller passes —
+keeps the lock exactly like a ticker renewal: the lease is pushed to `now + ttl` (the CONFIGURED ttl), and the
+token the instance remembers afterwards IS that new lease (so its next renewal and its `Unlock` are accepted) -/
+theorem renewLock_keeps (s : LockSt) (i d dur ttl td : Nat) (hi : ValidHolds s i) (hd : s.now + d ≤ s.lease)
+    (hg : durationGuard ttl = some td) :
+    let s1 := (lstep s (.tick d)).1
+    let s2 := (lstep s1 (.renewLock i dur ttl)).1
+    (lstep s1 (.renewLock i dur ttl)).2 = .renewed (s.now + d + td) ∧ ValidHolds s2 i ∧
+    s2.holder i = some (s.now + d + td) ∧ s2.lease = s.now + d + td ∧ s2.now = s.now + d := by
+  obtain ⟨tok, hh, hl, hn⟩ := hi
+  have hpos := durationGuard_pos hg
+  intro s1 s2
+  have hh' : s1.holder i = some tok := hh
+  have hl1 : s1.lease = tok := hl.symm
+  have hn1 : s1.now = s.now + d := rfl
+  have h0 : s1.lease ≠ 0 := by rw [hl1]; omega
+  have h1 : ¬ s1.now > s1.lease := by rw [hl1, hn1]; omega
+  have hs2 : lstep s1 (.renewLock i dur ttl) =
+      ({ s1 with lease := s1.now + td, holders := setHolder s1.holders i (s1.now + td) }, .renewed (s1.now + td)) := by
+    rw [lstep_renewLock]; exact lstep_renew_ok s1 i ttl td tok hh' hg h0 h1 hl1
+  have hlk : s2.holder i = some (s1.now + td) := by
+    show (lstep s1 (.renewLock i dur ttl)).1.holder i = _
+    rw [hs2]
+    show (setHolder s1.holders i (s1.now + td)).lookup i = some (s1.now + td)
+    rw [lookup_setHolder, if_pos rfl]
+  have hle : s2.lease = s1.now + td := by
+    show (lstep s1 (.renewLock i dur ttl)).1.lease = _; rw [hs2]
+  have hno : s2.now = s1.now := by
+    show (lstep s1 (.renewLock i dur ttl)).1.now = _; rw [hs2]
+  refine ⟨by rw [hs2, hn1], ⟨s1.now + td, hlk, hle.symm, by rw [hno]; omega⟩, by rw [hlk, hn1], by rw [hle, hn1], by rw [hno, hn1]⟩
+
+/-- … and the ticker's next renewal after an explicit one (any time `d2` up to the new expiry) is accepted -/
+theorem ticker_after_renewLock (s : LockSt) (i d dur ttl td d2 : Nat) (hi : ValidHolds s i)
+    (hd : s.now + d ≤ s.lease) (hg : durationGuard ttl = some td) (hd2 : d2 ≤ td) :
+    let s2 := (lstep (lstep s (.tick d)).1 (.renewLock i dur ttl)).1
+    (lstep (lstep s2 (.tick d2)).1 (.renew i ttl)).2 = .renewed (s.now + d + d2 + td) ∧
+    ValidHolds (lstep (lstep s2 (.tick d2)).1 (.renew i ttl)).1 i := by
+  intro s2
+  obtain ⟨_, hv, _, hle, hno⟩ := renewLock_keeps s i d dur ttl td hi hd hg
+  have := renew_keeps s2 i d2 ttl td hv (by rw [hle, hno]; omega) hg
+  rw [hno] at this
+  exact this
+
+/-- a step that does not take the lock away from a valid holder `i` from outside: not `i`'s own `Unlock`, and no
+passage of time up to the expiry of the current lease (i.e. `i`'s renewals keep coming before the expiry) -/
+def Harmless (i : Nat) (s : LockSt) : Ev → Prop
+  | .tick d => s.now + d < s.lease
+  | .unlock j => j ≠ i
+  | _ => True
+
+instance (i : Nat) (s : LockSt) (e : Ev) : Decidable (Harmless i s e) := by
+  cases e <;> unfold Harmless <;> infer_instance
+
+/-- the whole schedule is harmless for `i`, step by step along the run -/
+def KeepsAlive (i : Nat) : LockSt → List Ev → Prop
+  | _, [] => True
+  | s, e :: es => Harmless i s e ∧ KeepsAlive i (lstep s e).1 es
+
+instance instDecKeepsAlive (i : Nat) : (s : LockSt) → (es : List Ev) → Decidable (KeepsAlive i s es)
+  | _, [] => isTrue trivial
+  | s, e :: es =>
+    have := instDecKeepsAlive i (lstep s e).1 es
+    (inferInstance : Decidable (Harmless i s e ∧ KeepsAlive i (lstep s e).1 es))
+
+/-- a renewal (ticker or explicit) of ANY instance leaves a valid holder valid: its own renewal is accepted
+and installs the new token, a foreign one is refused because the foreign token is stale (invariant) -/
+theorem validHolds_renew (s : LockSt) (i j ttl : Nat) (hinv : Inv s) (hi : ValidHolds s i) :
+    ValidHolds (lstep s (.renew j ttl)).1 i := by
+  obtain ⟨tok, hh, hl, hn⟩ := hi
+  cases hj : s.holder j with
+  | none => rw [lstep_renew_notHolder s j ttl hj]; exact ⟨tok, hh, hl, hn⟩
+  | some prev =>
+    cases hg : durationGuard ttl with
+    | none => rw [lstep_renew_invalid s j ttl prev hj hg]; exact ⟨tok, hh, hl, hn⟩
+    | some td =>
+      by_cases hji : j = i
+      · have hpt : prev = tok := by rw [hji, hh] at hj; exact (Option.some.inj hj).symm
+        have hpos := durationGuard_pos hg
+        rw [lstep_renew_ok s j ttl td prev hj hg (by omega) (by omega) (by omega)]
+        refine ⟨s.now + td, ?_, rfl, ?_⟩
+        · show (setHolder s.holders j (s.now + td)).lookup i = some (s.now + td)
+          rw [lookup_setHolder, if_pos hji.symm]
+        · show s.now < s.now + td; omega
+      · have hne : s.lease ≠ prev := by
+          rcases hinv j prev hj with h1 | ⟨_, h3⟩
+          · omega
+          · exact absurd (h3 i tok hh hl) (fun e => hji e.symm)
+        rw [lstep_renew_expired s j ttl td prev hj hg (Or.inr (Or.inr hne))]
+        exact ⟨tok, hh, hl, hn⟩
+
+/-- one harmless step keeps a valid holder valid -/
+theorem validHolds_step (s : LockSt) (i : Nat) (e : Ev) (hinv : Inv s) (hi : ValidHolds s i)
+    (he : Harmless i s e) : ValidHolds (lstep s e).1 i := by
+  cases e with
+  | tick d =>
+    obtain ⟨tok, hh, hl, hn⟩ := hi
+    have hd : s.now + d < s.lease := he
+    rw [lstep_tick]
+    exact ⟨tok, hh, hl, by show s.now + d < tok; omega⟩
+  | lockTry j ttl =>
+    obtain ⟨tok, hh, hl, hn⟩ := hi
+    cases hg : durationGuard ttl with
+    | none => rw [lstep_lockTry_invalid s j ttl hg]; exact ⟨tok, hh, hl, hn⟩
+    | some td => rw [lstep_lockTry_conflict s j ttl td hg (by omega)]; exact ⟨tok, hh, hl, hn⟩
+  | renew j ttl => exact validHolds_renew s i j ttl hinv hi
+  | renewLock j dur ttl => rw [lstep_renewLock]; exact validHolds_renew s i j ttl hinv hi
+  | unlock j =>
+    obtain ⟨tok, hh, hl, hn⟩ := hi
+    have hji : j ≠ i := he
+    cases hj : s.holder j with
+    | none => rw [lstep_unlock_notHolder s j hj]; exact ⟨tok, hh, hl, hn⟩
+    | some t' =>
+      have hne : s.lease ≠ t' := by
+        rcases hinv j t' hj with h1 | ⟨_, h3⟩
+        · omega
+        · exact absurd (h3 i tok hh hl) (fun e => hji e.symm)
+      rw [lstep_unlock_expired s j t' hj hne]
+      refine ⟨tok, ?_, hl, hn⟩
+      show (dropHolder s.holders j).lookup i = some tok
+      rw [lookup_dropHolder, if_neg (fun e => hji e.symm)]; exact hh
+
+/-- **C49 (locks: held until unlocked or expired).** From any state satisfying the invariant (every reachable
+one does) in which `i` validly holds the lock, after EVERY schedule of lock attempts, ticker renewals, explicit
+`RenewLockLease` calls (any duration argument) and unlocks of ANY instances in which `i` itself does not unlock
+and time never reaches the expiry of the lease current at that moment, `i` still validly holds the lock. -/
+theorem held_until_unlock_or_expiry (s : LockSt) (i : Nat) (es : List Ev) (hinv : Inv s) (hi : ValidHolds s i)
+    (hk : KeepsAlive i s es) : ValidHolds (lrun s es) i ∧ Inv (lrun s es) := by
+  induction es generalizing s with
+  | nil => exact ⟨hi, hinv⟩
+  | cons e es ih => exact ih _ (inv_step s e hinv) (validHolds_step s i e hinv hi hk.1) hk.2
+
+theorem keepsAlive_prefix (i : Nat) (s : LockSt) (es1 es2 : List Ev) (h : KeepsAlive i s (es1 ++ es2)) :
+    KeepsAlive i s es1 := by
+  induction es1 generalizing s with
+  | nil => trivial
+  | cons e es ih => exact ⟨h.1, ih _ h.2⟩
+
+/-- **C49 (locks, the statement).** While instance `i` holds the lock and keeps renewing it (ticker or explicit
+`RenewLockLease`) — until it unlocks or lets the lease expire — EVERY lock attempt of every instance anywhere in
+the schedule is refused and changes nothing. -/
+theorem no_other_obtains_while_held (s : LockSt) (i j ttl : Nat) (es1 es2 : List Ev) (hinv : Inv s)
+    (hi : ValidHolds s i) (hk : KeepsAlive i s (es1 ++ .lockTry j ttl :: es2)) :
+    lstep (lrun s es1) (.lockTry j ttl) = (lrun s es1, .conflict) ∨
+    lstep (lrun s es1) (.lockTry j ttl) = (lrun s es1, .invalidTTL) := by
+  have hv := (held_until_unlock_or_expiry s i es1 hinv hi (keepsAlive_prefix i s es1 _ hk)).1
+  cases hg : durationGuard ttl with
+  | none => right; exact lstep_lockTry_invalid _ j ttl hg
+  | some td => left; exact lock_exclusive _ i j ttl td hv hg
+
+/-- the same from the very beginning: any schedule `es0` whatsoever, then a schedule that keeps `i` alive -/
+theorem no_other_obtains_while_held_reachable (es0 es1 es2 : List Ev) (i j ttl td : Nat)
+    (hi : ValidHolds (lrun {} es0) i) (hg : durationGuard ttl = some td)
+    (hk : KeepsAlive i (lrun {} es0) (es1 ++ .lockTry j ttl :: es2)) :
+    (lstep (lrun (lrun {} es0) es1) (.lockTry j ttl)).2 = .conflict := by
+  have hv := (held_until_unlock_or_expiry _ i es1 (inv_reachable es0) hi (keepsAlive_prefix i _ es1 _ hk)).1
+  rw [lock_exclusive _ i j ttl td hv hg]
+
 /-! ## non-vacuity -/
 
 -- the repaired listing on the formerly failing input: keys a/b, a/b/x, a/b/y/z, a/bc/q
@@ -617,6 +781,29 @@ example :
     (lstep (lrun s [.tick (second*14/10)]) (.lockTry 2 (2*second))).2 = .conflict ∧
     (lstep (lrun s [.unlock 1]) (.lockTry 2 (2*second))).2 = .acquired (3*second) := by
   refine ⟨⟨2500000000, by decide, by decide, by decide⟩, by decide, by decide, by decide⟩
+-- A (ttl 2 s) locks; 0.3 s later it calls RenewLockLease with a 7 s duration argument (ignored: the lease
+-- becomes now+2 s and A remembers exactly that token); the ticker renews 0.5 s later with it; B is refused
+-- 1.9 s after that, i.e. 2.7 s after the Lock and long after the first two leases would have run out
+example :
+    let s := lrun {} [.lockTry 1 (2*second)]
+    let es := [Ev.tick (3*second/10), .renewLock 1 (7*second) (2*second), .tick (second/2), .renew 1 (2*second),
+               .tick (19*second/10)]
+    ValidHolds s 1 ∧ Inv s ∧ KeepsAlive 1 s (es ++ [.lockTry 2 (2*second)]) ∧
+    (lstep (lrun s es) (.lockTry 2 (2*second))).2 = .conflict ∧
+    (lrun s es).holder 1 = some (28*second/10) := by
+  refine ⟨⟨2000000000, by decide, by decide, by decide⟩, inv_reachable _, by decide, by decide, by decide⟩
+-- the hypotheses of `held_until_unlock_or_expiry` are needed: without renewals the same contender succeeds
+example :
+    let s := lrun {} [.lockTry 1 (2*second)]
+    ¬ KeepsAlive 1 s [.tick (27*second/10)] ∧
+    (lstep (lrun s [.tick (27*second/10)]) (.lockTry 2 (2*second))).2 = .acquired (47*second/10) := by
+  exact ⟨by decide, by decide⟩
+-- a stale instance (2, lease taken over by 1 after expiry) renewing / unlocking is harmless for holder 1
+example :
+    let s := lrun {} [.lockTry 2 (second), .tick (second), .lockTry 1 (2*second)]
+    ValidHolds s 1 ∧ KeepsAlive 1 s [.renew 2 second, .renewLock 2 0 second, .unlock 2, .tick second, .lockTry 2 second] ∧
+    ValidHolds (lrun s [.renew 2 second, .renewLock 2 0 second, .unlock 2, .tick second]) 1 := by
+  refine ⟨⟨3000000000, by decide, by decide, by decide⟩, by decide, ⟨3000000000, by decide, by decide, by decide⟩⟩
 example : durationGuard (2*second) = some (2*second) := by decide
 
 end Specter.C49
